@@ -13,6 +13,7 @@ package pilosa_test
 
 import (
 	"context"
+	"crypto/sha1"
 	"encoding/json"
 	"fmt"
 	"os"
@@ -156,6 +157,9 @@ type c08Inst struct {
 	dir string
 	srv *pilosa.Server
 	api *pilosa.API
+
+	lastBattery string
+	seen        []string // digests of the batteries observed at the restart points (evidence only)
 }
 
 func (in *c08Inst) open() error {
@@ -505,6 +509,7 @@ func (in *c08Inst) battery() []string {
 // restart = clean Close + Open on the same directory; returns (after, before) as comparable strings.
 func (in *c08Inst) restart() (got, want string) {
 	before := in.battery()
+	in.lastBattery = strings.Join(before, "\n")
 	if err := in.close(); err != nil {
 		return "CLOSE-ERROR " + err.Error(), strings.Join(before, "\n")
 	}
@@ -591,9 +596,21 @@ var c08Confirmed = map[string]bool{}
 
 var c08Ops = []string{"w1", "w2", "w3", "clr", "imp", "rattr", "cattr", "delF", "mkF", "mkG", "delG", "delI", "mkI"}
 
+// distinct pre-restart observation vectors met by this worker (evidence: shows the histories reach different
+// states, not just that the verdict is the same)
+var c08Batteries = map[[20]byte]struct{}{}
+
+func c08Seen(b string) { c08Batteries[sha1.Sum([]byte(b))] = struct{}{} }
+
+type c08Mismatch struct {
+	path      []vx.Op
+	got, want string
+}
+
 // c08Run executes ops with a restart after the positions in mask (bit k = after op k); the last position is
-// always restarted. Returns the first mismatch.
-func c08Run(cf c08Config, ops []int, mask int) (path []vx.Op, got, want string, restarts int) {
+// always restarted. Every restart is judged on its own (before vs after), so a mismatch does not end the
+// history: the state after a restart is whatever the real code loaded, and the next restart must preserve THAT.
+func c08Run(cf c08Config, ops []int, mask int) (out []c08Mismatch, path []vx.Op, restarts int) {
 	in := c08New(cf)
 	defer in.destroy()
 	for k, oi := range ops {
@@ -603,15 +620,16 @@ func c08Run(cf c08Config, ops []int, mask int) (path []vx.Op, got, want string, 
 			path = append(path, vx.Op{Name: "restart"})
 			restarts++
 			g, w := in.restart()
+			c08Seen(in.lastBattery)
 			if g != w {
-				return path, g, w, restarts
+				out = append(out, c08Mismatch{append([]vx.Op(nil), path...), g, w})
 			}
 			if in.srv == nil {
-				return path, g, w, restarts
+				return out, path, restarts
 			}
 		}
 	}
-	return path, "", "", restarts
+	return out, path, restarts
 }
 
 func TestVerif_C08(t *testing.T) {
@@ -683,37 +701,59 @@ func TestVerif_C08(t *testing.T) {
 			masks = append(masks, 1<<uint(len(u.ops))-1)
 		}
 		for _, m := range masks {
-			path, got, want, restarts := c08Run(cf, u.ops, m)
+			mm, path, restarts := c08Run(cf, u.ops, m)
 			c.AddEval(1)
 			c.AddStates(int64(restarts))
 			c.AddTransitions(int64(len(path)))
 			c.Distinct(fmt.Sprintf("%s|%v|%d", cf, u.ops, m))
-			if got == want {
+			if len(mm) == 0 {
 				c.Outcome("same")
-				continue
 			}
-			// determinism: the same history must fail the same way twice more before it is believed
-			what, gl, wl := c08Diff(got, want)
-			ok := true
-			ck := what + "|" + cf.class()
-			if !c08Confirmed[ck] {
-				for r := 0; r < 2; r++ {
-					_, g2, _, _ := c08Run(cf, u.ops, m)
-					if g2 != got {
-						ok = false
+			for _, x := range mm {
+				what, gl, wl := c08Diff(x.got, x.want)
+				cls := cf.class()
+				if strings.HasPrefix(what, "field-options") {
+					// option drift does not depend on key translation; for int fields only on whether min is 0
+					cls = strings.Replace(strings.Replace(cls, "+fieldkeys", "", 1), "+indexkeys", "", 1)
+					if cf.Type == "int" {
+						cls = "int/min!=0"
+						if cf.Min == 0 {
+							cls = "int/min=0"
+						}
 					}
 				}
-				c08Confirmed[ck] = ok
+				// determinism: the first time a (what, class) shows up in this worker the history must fail the
+				// same way twice more before it is believed
+				ck := what + "|" + cls
+				ok, seen := c08Confirmed[ck]
+				if !seen {
+					ok = true
+					for r := 0; r < 2; r++ {
+						again, _, _ := c08Run(cf, u.ops, m)
+						same := false
+						for _, y := range again {
+							if y.got == x.got && len(y.path) == len(x.path) {
+								same = true
+							}
+						}
+						ok = ok && same
+					}
+					c08Confirmed[ck] = ok
+				}
+				if !ok {
+					c.Outcome("flaky " + what)
+					continue
+				}
+				c.Outcome(what)
+				key := fmt.Sprintf("restart-changes what=%s config=%s", what, cls)
+				// Case: the op list (so shorter histories win); the configuration goes into got/want
+				c.Violate(key, x.path, fmt.Sprintf("[%s] after restart: %s", cf, gl), fmt.Sprintf("before restart: %s", wl))
 			}
-			if !ok {
-				c.Outcome("flaky " + what)
-				continue
-			}
-			c.Outcome(what)
-			key := fmt.Sprintf("restart-changes what=%s config=%s", what, cf.class())
-			// Case: the op list (so shorter histories win), the configuration goes into got/want
-			c.Violate(key, path, fmt.Sprintf("[%s] after restart: %s", cf, gl), fmt.Sprintf("before restart: %s", wl))
 		}
+		for h := range c08Batteries {
+			c.Outcome("battery " + string(h[:]))
+		}
+		c08Batteries = map[[20]byte]struct{}{}
 		if i%997 == 0 {
 			c.Sample(fmt.Sprintf("%s :: %v", cf, u.ops))
 		}
